@@ -14,7 +14,7 @@ for d in sorted(glob.glob('/verif/seeded/*/meta.json')):
         caught_after += 1
     elif c:
         caught_first += 1
-summary = ("%d seeded changes (%d properties, first round; a second round on %d of them), %d confirmed by their demonstration in both directions. "
+summary = ("%d seeded changes (%d properties, first round; a second round on %d of them; a third on four), %d confirmed by their demonstration in both directions. "
            "%d were reported by the registered quick check as it stood; %d were first missed (or only inconclusive) and are reported after the check was strengthened; "
            "%d is not reported by any check." % (
     n, len({json.load(open(d))['property'] for d in glob.glob('/verif/seeded/*-s1/meta.json')}),
